@@ -60,15 +60,6 @@ end GenTieFixed
 
 /-! ## the proof script -/
 
-open Lean Elab Command in
-/-- `when_translated Gen.X in <command>`: the command (a theorem about the regenerated definition `Gen.X`) is elaborated
-    only when the translator produced `Gen.X` in this run.  A function that a change of the Go code moves outside the
-    translated fragment (an implementation through `math/big`, say) has no tie any more — `./check C03` records that as
-    reduced coverage; the differential run still covers the function — instead of a proof that no longer checks. -/
-elab "when_translated " id:ident " in " cmd:command : command => do
-  if (← getEnv).contains id.getId then elabCommand cmd
-  else logInfo m!"{id.getId} is outside the translated fragment: no tie for it in this run"
-
 /-- unfold the generated definitions (`gen_def`) and the model definitions `defs`, push `toInt` through the word
     operations (`GenTieFixed.toInt_add` …) — in the goal and in every hypothesis -/
 syntax "fx_push" "[" Lean.Parser.Tactic.simpLemma,* "]" : tactic
